@@ -17,6 +17,7 @@ package analysis
 import (
 	"fmt"
 	"reflect"
+	"strconv"
 
 	"github.com/go-openapi/spec"
 )
@@ -79,6 +80,7 @@ func Mixin(primary *spec.Swagger, mixins ...*spec.Swagger) []string {
 		skipped = append(skipped, mergeParameters(primary, m)...)
 
 		skipped = append(skipped, mergeResponses(primary, m)...)
+		verifEmit("mixin.step", primary, strconv.Itoa(i), strconv.Itoa(len(skipped)))
 	}
 
 	return skipped
